@@ -5,6 +5,7 @@
 // Sinks observed: a recording sink written against the public log::Sink API, AsyncFileSink (fresh
 // directory), AsyncStdoutSink / SyncStdoutSink (fd 1 redirected to a file during the scenario).
 #include "common/vh.hpp"
+#include <sys/syscall.h>
 #include "common/conc.hpp"
 #include <tbox/base/log.h>
 #include <tbox/base/log_impl.h>
@@ -298,6 +299,22 @@ void one_case(uint64_t idx, vh::Rng &r) {
     std::string workdir = vh::st().args.out.empty() ? "/tmp" : vh::st().args.out;
     std::string logdir = workdir + vh::fmt("/c09_%d_%llu", (int)getpid(), (unsigned long long)idx);
     std::string outfile = logdir + ".stdout";
+    // Fault window for the file sink: during one burst the log directory is made unusable (moved away, a regular file
+    // put in its place), so the back end cannot create or re-find its file; the sink keeps the batch and writes it once a
+    // file can be created again (async_file_sink.cpp flush()). The window is healed before the next burst, which must
+    // itself deliver at least one record to the sink (a flush only happens when records arrive) and keep it enabled.
+    int fault_burst = -1;
+    for (auto &sc : sinks) if (sc.kind == 1 && r.chance(1, 3)) {
+        std::vector<int> ok;
+        for (int b = 0; b + 1 < nbursts; ++b) {
+            if (!sc.enabled[b] || !sc.enabled[b + 1]) continue;
+            bool in_b = false, in_n = false;
+            for (auto &v : per_thread) for (auto &c : v) { if (c.burst == b && passes(sc, c)) in_b = true; if (c.burst == b + 1 && passes(sc, c)) in_n = true; }
+            if (in_b && in_n) ok.push_back(b);
+        }
+        if (!ok.empty()) fault_burst = ok[r.below(ok.size())];
+    }
+    sig.add(fault_burst);
     vh::st().case_desc = vh::fmt("threads=%d bursts=%d calls=%zu sinks=%zu pipe{buf=%zu,min=%zu,max=%zu,ival=%zu} file_max=%zu maxlens=[", nthreads, nbursts, total_calls, sinks.size(),
                                  pcfg.buff_size, pcfg.buff_min_num, pcfg.buff_max_num, pcfg.interval, file_max);
     for (auto m : burst_max) vh::st().case_desc += vh::fmt("%zu,", m);
@@ -373,8 +390,29 @@ void one_case(uint64_t idx, vh::Rng &r) {
             if (sinks[i].enabled[b] && !is_on[i]) { objs[i]->enable(); is_on[i] = true; ++transitions; }
             if (!sinks[i].enabled[b] && is_on[i]) { objs[i]->disable(); is_on[i] = false; ++transitions; }
         }
+        bool faulted = false, had_dir = false;
+        const std::string away = logdir + ".away";
+        if (b == fault_burst) {
+            // swap the directory and a regular file atomically (RENAME_EXCHANGE): the back end runs concurrently and would
+            // otherwise re-create the directory between two separate steps, and the old files would be stranded
+            faulted = true;
+            int bf = open(away.c_str(), O_CREAT | O_WRONLY, 0644);
+            if (bf >= 0) close(bf);
+            for (int tries = 0; tries < 50; ++tries) {
+                if (syscall(SYS_renameat2, AT_FDCWD, logdir.c_str(), AT_FDCWD, away.c_str(), 2 /*RENAME_EXCHANGE*/) == 0) { had_dir = true; break; }
+                if (errno != ENOENT) break;
+                if (rename(away.c_str(), logdir.c_str()) == 0) break;      // no directory yet: the file takes its place
+            }
+            if (had_dir) vh::counter("file_fault_windows_with_a_file_already_open");
+            vh::counter("file_fault_windows");
+        }
         bar.wait();
         bar.wait();
+        if (faulted) {
+            vc::sleep_us(1000L * (3 * (long)pcfg.interval + 50));     // let the back end meet the fault at least once
+            if (had_dir) { if (syscall(SYS_renameat2, AT_FDCWD, away.c_str(), AT_FDCWD, logdir.c_str(), 2) == 0) unlink(away.c_str()); }
+            else unlink(logdir.c_str());
+        }
     }
     for (auto &t : th) t.join();
     for (size_t i = 0; i < sinks.size(); ++i) if (is_on[i]) { objs[i]->disable(); is_on[i] = false; }
